@@ -3,6 +3,8 @@
 package main
 
 import (
+	"os"
+	"encoding/json"
 	"bytes"
 	"fmt"
 	"math/big"
@@ -23,6 +25,57 @@ import (
 )
 
 func main() { Main(run) }
+
+// ---- replay support: `-extra replay=<file>` regenerates the stored run (same seed / tier / budget,
+// passed by the driver) and keeps only the stored case of the stored group
+type replaySel struct {
+	group string
+	idx   int
+}
+
+func parseReplay(extra string) (*replaySel, error) {
+	if !strings.HasPrefix(extra, "replay=") {
+		return nil, nil
+	}
+	raw, err := os.ReadFile(strings.TrimPrefix(extra, "replay="))
+	if err != nil {
+		return nil, err
+	}
+	var r struct {
+		Group string                 `json:"group"`
+		Case  map[string]interface{} `json:"case"`
+	}
+	if err := json.Unmarshal(raw, &r); err != nil {
+		return nil, err
+	}
+	idx, ok := r.Case["idx"].(float64)
+	if !ok {
+		return nil, fmt.Errorf("replay file has no case index")
+	}
+	return &replaySel{r.Group, int(idx)}, nil
+}
+
+// keep returns the items of one group as they go to the cases file
+func (s *replaySel) keep(group string, items []string) []string {
+	if s == nil {
+		return items
+	}
+	if group == s.group && s.idx < len(items) {
+		return items[s.idx : s.idx+1]
+	}
+	return nil
+}
+func (s *replaySel) keepJSON(m map[string][]map[string]interface{}) map[string][]map[string]interface{} {
+	if s == nil {
+		return m
+	}
+	out := map[string][]map[string]interface{}{}
+	if cs := m[s.group]; s.idx < len(cs) {
+		out[s.group] = cs[s.idx : s.idx+1]
+	}
+	return out
+}
+
 
 var sentinels = map[error]string{
 	transaction.ErrNullChangeAddress:               "ErrNullChangeAddress",
@@ -462,6 +515,10 @@ func paramsTerm(k *ranker, p transaction.Params) string {
 
 func run(args []string) error {
 	f := ParseFlags("c12", args)
+	sel, err := parseReplay(f.Extra)
+	if err != nil {
+		return err
+	}
 	logging.Disable()
 	r := NewRng(f.Seed)
 	n := f.Budget(400, 20000)
@@ -571,7 +628,7 @@ func run(args []string) error {
 		if len(short) > 60 {
 			short = short[:60]
 		}
-		cj := map[string]interface{}{"request": rq.label, "n_offered": len(uxb), "n_to": len(rq.p.To), "result": short, "verify_unsigned": vu}
+		cj := map[string]interface{}{"idx": i, "n": n, "request": rq.label, "n_offered": len(uxb), "n_to": len(rq.p.To), "result": short, "verify_unsigned": vu}
 		if len(uxb) <= 3 && len(rq.p.To) <= 2 {
 			cj["offered"] = fmt.Sprint(uxs)
 			cj["params"] = paramsTerm(k, rq.p)
@@ -673,7 +730,7 @@ func run(args []string) error {
 			uxs[j] = k.ux(u)
 		}
 		chooses = append(chooses, Tuple(B(maximize), fmt.Sprint(burn), List(uxs), fmt.Sprint(coins), fmt.Sprint(hours), obs))
-		caseJSON["choose"] = append(caseJSON["choose"], map[string]interface{}{"maximize": maximize, "offered": fmt.Sprint(uxs), "coins": fmt.Sprint(coins), "hours": fmt.Sprint(hours), "result": cls})
+		caseJSON["choose"] = append(caseJSON["choose"], map[string]interface{}{"idx": i, "n": n, "maximize": maximize, "offered": fmt.Sprint(uxs), "coins": fmt.Sprint(coins), "hours": fmt.Sprint(hours), "result": cls})
 		o.Count(fmt.Sprint("choose", maximize, uxs, coins, hours), true)
 		hist.Add("choose:" + cls)
 	}
@@ -730,17 +787,17 @@ func run(args []string) error {
 		if len(short) > 60 {
 			short = short[:60]
 		}
-		caseJSON["dist"] = append(caseJSON["dist"], map[string]interface{}{"coins": fmt.Sprint(cs), "hours": fmt.Sprint(hours), "result": short})
+		caseJSON["dist"] = append(caseJSON["dist"], map[string]interface{}{"idx": i, "n": n, "coins": fmt.Sprint(cs), "hours": fmt.Sprint(hours), "result": short})
 		o.Count(fmt.Sprint("dist", cs, hours), true)
 		hist.Add("dist:" + short)
 	}
 
-	o.Def("cases_create", "Z * params * list ux * R created * error", creates)
-	o.Def("cases_choose", "bool * Z * list ux * Z * Z * R (list ux)", chooses)
-	o.Def("cases_dist", "list Z * Z * R (list Z)", dists)
+	o.Def("cases_create", "Z * params * list ux * R created * error", sel.keep("create", creates))
+	o.Def("cases_choose", "bool * Z * list ux * Z * Z * R (list ux)", sel.keep("choose", chooses))
+	o.Def("cases_dist", "list Z * Z * R (list Z)", sel.keep("dist", dists))
 	o.Side["rule"] = "random wallets of 0-12 unspent outputs (amounts with ties, zero / small / large hours, ages, four owners, duplicates, genesis-like and inconsistent sources) and requests (1-5 destinations, all / more than / part of the balance, manual hours around the spendable amount or auto share with factors 0, 0.5, 1, many decimals, out of range; change address given / equal to a destination / automatic / null; invalid parameter combinations), plus the shape where the change output equals a requested output; ChooseSpends* and DistributeCoinHoursProportional called directly on random arguments. Every case counts, distinct by its inputs."
 	o.Side["distribution"] = hist.Sorted()
 	o.Side["samples"] = samples
-	o.Side["cases"] = caseJSON
+	o.Side["cases"] = sel.keepJSON(caseJSON)
 	return o.Write(f.Out, f.JSON)
 }
